@@ -1,40 +1,51 @@
 (* C01 — the interpreter agrees with the reference CLVM on the classic operator set.
    Only statements here; every proof is `exact <lemma>` from Proofs/RefClvm*.v.
 
-   Full statement (C01_refines), for all program / environment trees p e, budgets M and
-   cryptographic primitives P (only SHA-256 is reached), with H = p_sha256 P:
+   The reference is [ref_run H adapters dom] (Model/RefClvm.v): a big-step evaluator over
+   closed-form operator semantics, its own path lookup and unknown-operator rule, written from
+   the published definition of CLVM with the historical cost table as literals; H is SHA-256.
+   [current_adapters] names every deliberate deviation of today's consensus rules from the
+   historical package (ad_div, ad_softfork_guard, ad_nil_terminator,
+   ad_literal_operands_any_terminator, ad_head_any_terminator, ad_unknown_u32_cap). [dom] is the
+   domain of the comparison: outside it, and on operators outside the classic set, the
+   reference answers [Unsupported].
 
-     classic H p e M ->
+   Full statement = C01_refines, proved for ALL programs, environments, budgets below 2^64,
+   cryptographic primitives P and every sound domain (dom_sound: operator applications with an
+   atom of 2^31 bytes or more, or an unknown operator in the class wraps64 of C09, are outside):
+
+     (forall fuel, ref_run ... <> Err Unsupported) ->          (the program is classic)
        ((exists fuel, run_chia P fuel 0 p e M = Ok r) <->
-        (exists fuel, ref_run H current_adapters fuel p e M = Ok r))
+        (exists fuel, ref_run (p_sha256 P) current_adapters dom fuel p e M = Ok r))
 
-   i.e. the same cost and result tree on success, failure exactly when the reference fails,
-   where [ref_run] (Model/RefClvm.v) is the reference: a big-step evaluator over closed-form
-   operator semantics written from the published definition of CLVM, with the historical cost
-   table as literals, and [current_adapters] names every deliberate deviation of today's
-   consensus rules from the historical package (ad_div, ad_softfork_guard, ad_nil_terminator,
-   ad_literal_operands_any_terminator, ad_head_any_terminator, ad_unknown_u32_cap);
-   [classic] says that the reference never meets an operator outside the classic set
-   (ref_run <> Err Unsupported), that no atom of 2^31 bytes or more is involved (the allocator
-   cannot hold one) and that no unknown operator is applied in the wrap class of finding F6.
+   i.e. the same cost and result tree on success, failure exactly when the reference fails.
+   run_chia is the stack machine of Model/Machine.v (run_program.rs) under ChiaDialect with no
+   flags; the proof goes through its big-step form (Model/BigStep.v, Proofs/BigStepEquiv.v).
 
-   What is proved here, for ALL arguments:
+   Pieces:
      C01_operators      ChiaDialect::op with no flags (inside and outside softfork guards of
-                        extension 0 and 1) agrees with the reference's operator semantics
-                        [ref_op current_adapters] for every operator atom, every argument tree
-                        (proper or not) and every budget that covers the reference's cost:
-                        the dispatch, and for each of i c f r l x = >s sha256 substr strlen
-                        concat + - * / divmod > ash lsh logand logior logxor lognot not any all
-                        the accumulator loop of the transcribed Rust against the closed form,
-                        and the unknown-operator rule (through C09's published rule, outside
-                        the class wraps64 = finding F6 / 4 GiB operands);
+                        extension 0 and 1) agrees with [ref_op current_adapters] for every
+                        operator atom, every argument tree (proper or not) and every budget that
+                        covers the reference's cost: the dispatch, and for each of i c f r l x =
+                        >s sha256 substr strlen concat + - * / divmod > ash lsh logand logior
+                        logxor lognot not any all the accumulator loop of the transcribed Rust
+                        against the closed form, and the unknown-operator rule (through C09's
+                        published rule);
      C01_path           traverse_path = the reference's path lookup, cost and value;
      C01_unknown_rule   the reference's unknown-operator rule = the published rule of C09;
      C01_costs_literal  every literal of the reference's cost table = the constant re-read
                         from the Rust source by the translator;
-     C01_evaluator_*    see the end of this file for the evaluator level. *)
+     C01_refines_complete / C01_refines_sound   the two directions of C01_refines;
+     C01_dom_classic_sound   an executable sound domain (classic opcodes, atoms below 2^31);
+     C01_refuted_F6     with the FULL domain the statement is false: finding F6 (pre-hard-fork
+                        wrapping_mul in op_unknown) reached through run_program.
+
+   Not covered by these theorems (claimed level: other): the exclusions above (F6 is a genuine,
+   known, consensus-critical difference); the allocator's caps and STACK_SIZE_LIMIT, which the
+   tree-store machine does not model; the fidelity of the reference to the Python package, which
+   cannot be installed offline (validated against op-tests/*.txt by the check instead). *)
 From Clvm Require Import Model.Dialect Model.RefClvm Proofs.RefClvmBasics Proofs.RefClvmUnknown
-  Proofs.RefClvmDispatch Proofs.RefClvmCosts Proofs.UnknownProofs Proofs.RefClvmEval Proofs.RefClvmSound.
+  Proofs.RefClvmDispatch Proofs.RefClvmCosts Proofs.UnknownProofs Proofs.RefClvmEval Proofs.RefClvmSound Proofs.RefClvmF6.
 Open Scope N_scope.
 
 Theorem C01_operators : forall (P : prims) dom ext opc args M,
@@ -90,6 +101,13 @@ Theorem C01_refines : forall (P : prims) dom p e max_cost r,
    (exists fuel, ref_run (p_sha256 P) current_adapters dom fuel p e max_cost = Ok r)).
 Proof. exact ref_run_refines. Qed.
 
+(* finding F6 through run_program: with the full domain the statement is false (the known
+   pre-hard-fork wrapping_mul of op_unknown); sound domains exclude exactly such applications *)
+Theorem C01_refuted_F6 : exists p e, forall P : prims,
+  run_chia P 10 0 p e 0 = Ok (2375088143, nil_s) /\
+  ref_run (p_sha256 P) current_adapters (fun _ _ => true) 10 p e 0 = Err Invalid.
+Proof. exact f6_refutes_c01. Qed.
+
 Theorem C01_dom_classic_sound : dom_sound dom_classic.
 Proof. exact dom_classic_sound. Qed.
 
@@ -123,5 +141,6 @@ Print Assumptions C01_witness.
 Print Assumptions C01_refines_complete.
 Print Assumptions C01_refines_sound.
 Print Assumptions C01_refines.
+Print Assumptions C01_refuted_F6.
 Print Assumptions C01_dom_classic_sound.
 Print Assumptions C01_refines_witness.
